@@ -297,7 +297,7 @@ def classify(r):
         out.append((f"harness:{t}", ex["harness_error"][-300:]))
     for er in ex.get("errors", []):
         msg = er.get("error", "")
-        if alias and er.get("stage") in ("compile-error", "load-error"):
+        if alias and er.get("stage") in ("compile-error", "load-error", "run-crash"):
             continue  # consequence of the aliasing reported above (a variable of another type is used)
         if "floot" in msg:
             out.append(("template:cpp:floor:std::floot", "emitted C++ does not compile: " + msg))
@@ -305,6 +305,9 @@ def classify(r):
             out.append(("template:cpp:remainder:%-on-floating-operands", "emitted C++ does not compile: " + msg))
         elif re.search(r"no matching function for call to ‘(max|min)\((double|float)&?, (double|float)&?\)’", msg) and ex.get("attrib") is None:
             out.append(("template:cpp:maximum-minimum:std::max-needs-identical-operand-types", "emitted C++ does not compile: " + msg))
+        elif er.get("stage") == "run-crash" and ex.get("attrib") == "cpp-constant-printed-untyped":
+            out.append(("cpp:constants-printed-untyped:value-differs",
+                        "integer-valued constants of float type are printed as int literals: `(7) / (0)` is an integer division by zero; " + msg))
         elif ex.get("attrib") == "cpp-constant-printed-untyped":
             out.append(("cpp:constants-printed-untyped:compile-error", "emitted C++ does not compile (compiles once constants are cast to the type of `like`): " + msg))
         elif re.search(r"‘_\w+_\d+_’ was not declared", msg) and r.get("stream") == "reuse":
@@ -323,6 +326,9 @@ def classify(r):
         elif t == "numpy" and "AssertionError" in m["why"] and "dtype(" in m["why"] and all(mm["debug"] >= 1 for mm in ex["mismatches"]):
             out.append(("numpy:debug1:dtype-assertion-fails:static-type-differs-from-runtime-dtype",
                         "the debug>=1 dtype assertion fails although debug 0 returns the bits of direct evaluation (Expr.get_type disagrees with NumPy promotion, e.g. copysign(x32, y64), Python max/min of mixed dtypes; see C08): " + m["why"]))
+        elif r.get("negzero_complex_constant") and t in ("numpy", "python") and ex.get("attrib") is None:
+            out.append((f"{t}:make_constant:complex-str-does-not-round-trip-zero-signs",
+                        "a complex constant is printed with str(value), which does not round-trip the sign of a zero part: `(-0+0.1j)` / `(1-0j)` read back with +0.0, `-2j` (0.0-2j) with a -0.0 real part: " + m["why"]))
         elif r.get("narrow_np_constant") and t in ("numpy", "python") and ex.get("attrib") is None:
             out.append((f"{t}:make_constant:narrower-numpy-scalar-printed-by-its-shortest-repr",
                         "a numpy scalar constant narrower than the type of `like` is printed with str(value) (shortest repr in ITS precision) and re-read in the wider type, e.g. numpy.float32(0.1) like float64 -> numpy.float64(0.1): " + m["why"]))
